@@ -167,7 +167,9 @@ fn main() {
                 }
                 Ok(c) => {
                     let hash = std::panic::catch_unwind(|| minecraft_hash(&c.sid, &c.secret, &c.pubkey)).unwrap_or_default();
-                    let adapter = adapters.entry(c.sid.clone()).or_insert_with(|| std::sync::Arc::new(MojangAdapter::default().with_server_id(c.sid.clone()))).clone();
+                    // (every second adapter is configured twice, first with another server id: the last configuration counts)
+                    let twice = c.sid.len() % 2 == 1;
+                    let adapter = adapters.entry(c.sid.clone()).or_insert_with(|| std::sync::Arc::new(if twice { MojangAdapter::default().with_server_id("earlier-id".to_string()).with_server_id(c.sid.clone()) } else { MojangAdapter::default().with_server_id(c.sid.clone()) })).clone();
                     // the login BEFORE this one (another player, another secret) was given up on while its request was in flight -- what the
                     // listener's deadline does to a connection: its future is dropped 100 ms into a request the service answers after 300 ms.
                     // Whatever it left behind is none of this login's business; its own request is not part of the judged record.
